@@ -68,6 +68,18 @@ def cross_oracle(run, corr, deep):
         m = T.rand_valid_rx(rng, ver=0)
         m.burst = bytes(0x81 if b == 0x80 else b for b in T.soft_burst(rng, len(m.burst)))   # octets of array('b'); -128 is outside the domain
         msgs.append((m, rng.randrange(2)))
+    # "every message the toolkit accepts": sweep each numeric field far beyond its protocol range too - whatever the real
+    # validate()/gen_msg() lets through must arrive in trxcon with the value it was sent with
+    base = T.rand_valid_rx(rng, ver=0)
+    base.burst = bytes(0x81 if b == 0x80 else b for b in T.soft_burst(rng, 148))
+    for v in list(range(-300, 61)):
+        msgs.append((base.copy(rssi=v), 0))
+    for v in sorted(set(list(range(-33100, 33101, 331)) + [-32769, -32768, -32767, 32766, 32767, 32768, -1, 0, 1])):
+        msgs.append((base.copy(toa=v), 0))
+    for v in (0, 1, H - 1, H, H + 1, 2 ** 32 - 1):
+        msgs.append((base.copy(fn=v), 0))
+    for v in range(-1, 10):
+        msgs.append((base.copy(tn=v), 0))
     enc = vf.run_lines(T.HARNESS, ["trxd.rx.gen %d %s" % (l, m.line()) for m, l in msgs])
     reqs, keep = [], []
     for (m, l), a in zip(msgs, enc):
